@@ -55,16 +55,16 @@ var scenarios = map[string]func(w *world, p *Plan, info *runInfo){}
 
 // runInfo is what the executor hands to the oracles besides the event log.
 type runInfo struct {
-	plan     *Plan
-	ev       []verifsim.Event
-	rejected []string          // per node: config.Parse error ("" = accepted)
-	cfgs     []*config.Config  // per node
-	epochs   []int64           // per node: fake ns at which config.Parse ran (the daemon's epoch)
-	tasks    [][]string        // per node: String() of the tasks BuildTasks returned
-	taskKind [][]string        // per node: kind of each task (advertiser, monitor, http, watcher, script)
-	served   []bool            // per node: Serve returned before the end of the run
-	stopAt   int64             // fake time at which the horizon stop was issued (0 = never)
-	startUnixNs int64          // absolute (fake) UNIX time of the run's time zero
+	plan        *Plan
+	ev          []verifsim.Event
+	rejected    []string         // per node: config.Parse error ("" = accepted)
+	cfgs        []*config.Config // per node
+	epochs      []int64          // per node: fake ns at which config.Parse ran (the daemon's epoch)
+	tasks       [][]string       // per node: String() of the tasks BuildTasks returned
+	taskKind    [][]string       // per node: kind of each task (advertiser, monitor, http, watcher, script)
+	served      []bool           // per node: Serve returned before the end of the run
+	stopAt      int64            // fake time at which the horizon stop was issued (0 = never)
+	startUnixNs int64            // absolute (fake) UNIX time of the run's time zero
 }
 
 // recTask records when a supervised task starts and returns.
@@ -194,14 +194,14 @@ func parseMAC(s string) net.HardwareAddr {
 
 func newWorld(p *Plan, res *verifsim.Result, start time.Time) *world {
 	w := &world{
-		log:   verifsim.NewLog(start),
-		res:   res,
-		plan:  p,
-		byIdx: map[int]*wiface{},
-		loop:  append([]RouteW(nil), p.Loop...),
-		ord:   map[string]int{},
-		holds: map[string]chan struct{}{},
-		endC:  make(chan struct{}),
+		log:    verifsim.NewLog(start),
+		res:    res,
+		plan:   p,
+		byIdx:  map[int]*wiface{},
+		loop:   append([]RouteW(nil), p.Loop...),
+		ord:    map[string]int{},
+		holds:  map[string]chan struct{}{},
+		endC:   make(chan struct{}),
 		ghosts: map[int][]AddrW{},
 	}
 	for i := range p.Faults {
@@ -705,6 +705,7 @@ func execPlan(t *testing.T, p *Plan, res *verifsim.Result, oracle func(*runInfo)
 		info.startUnixNs = start.UnixNano()
 		w := newWorld(p, res, start)
 		context.VerifCancelSeed = p.Cancel
+		context.VerifSetMapSeed(p.Cancel ^ uint64(p.Offset))
 		system.VerifRtnl = w.rtnl
 		system.VerifLoopbacks = w.loopbacks
 		defer func() { system.VerifRtnl, system.VerifLoopbacks = nil, nil }()
